@@ -22,7 +22,7 @@ EXPLANATION = (
     "counts (pure arithmetic).")
 ASSUMPTIONS = ["register_work runs the task function exactly once (C01)", "n >= 0 (precondition of bulk)"]
 THOROUGH_CONFIGS = [["-UNDEBUG", "-DPIKA_DEBUG"]]
-FLOORS = {"C11.R7": 6, "C11.R8": 3, "C11.R1": 3, "C11.R2": 6, "C11.R3": 3, "C11.R4": 3, "C11.R5": 1}
+FLOORS = {"C11.R7": 6, "C11.R8": 3, "C11.R1": 3, "C11.R2": 6, "C11.R3": 5, "C11.R4": 3, "C11.R5": 1}
 
 NSB = "pika::thread_pool_bulk_detail::operation_state::bulk_receiver"
 
@@ -396,6 +396,41 @@ def run(rep, tier):
             rep.ok("C11.R3", fn, "finish(): completes (error xor value) only on the edge --tasks_remaining == 0")
         else:
             rep.bad("C11.R3", fn, fn.loc, "finish", "finish() must complete exactly once and only for the last worker (counts %s, guarded by the last decrement: %s)" % (sorted(s.normal), bool(last)))
+    # every task that may have run chunks is counted: finish() decrements on every path, and nobody re-sizes the counter / the
+    # number of participating workers after the operation state was built (the spawning thread itself takes part - it steals
+    # chunks like the others - whatever its worker number is)
+    from engine.kinds import bypass_path as _bp3
+    for fn in inst(TF + "::finish"):
+        dec3 = lambda e: (e.get("k") == "call" and e.get("op") == "--" and "tasks_remaining" in P(e.get("recv") or {})) or \
+            (e.get("k") == "write" and e.get("op") == "--" and "tasks_remaining" in P(e["lhs"])) or \
+            (e.get("k") == "call" and callee_short(e) in ("fetch_sub",) and "tasks_remaining" in P(e.get("recv") or {}))
+        byp = _bp3(fn, dec3)
+        if byp is None:
+            rep.ok("C11.R3", fn, "finish() decrements tasks_remaining on every path")
+        else:
+            rep.bad("C11.R3", fn, fn.loc, "finish-uncounted", "finish() can return without decrementing tasks_remaining: a task that took part in the chunk loop (it steals chunks "
+                    "whatever its worker number) is not waited for - the last counted task signals the receiver while that task is still inside f")
+    rewr = []
+    for fn in D.fns:
+        if not fn.qname.startswith("pika::thread_pool_bulk_detail::") or fn.qname.endswith("::finish"):
+            continue
+        for b, i, e in fn.all_events():
+            tgt = None
+            if e.get("k") == "write":
+                tgt = P(e["lhs"])
+            elif e.get("k") == "call" and e.get("op") in ("=", "+=", "-=", "--", "++") and e.get("recv") is not None:
+                tgt = P(e["recv"])
+            elif e.get("k") == "call" and callee_short(e) in ("store", "exchange", "fetch_sub", "fetch_add") and e.get("recv") is not None:
+                tgt = P(e["recv"])
+            if tgt and re.search(r"op_state(->|\.)(tasks_remaining|num_worker_threads)$", tgt):
+                rewr.append((fn, e, tgt))
+    if rewr:
+        fn, e, tgt = rewr[0]
+        rep.bad("C11.R3", fn, loc_of(e), "counter-rewritten", "%s writes %s after the operation state was built: the join counter / the number of participating workers no longer match the "
+                "tasks that call finish() (the spawning thread takes part whatever its number), so the receiver can be signalled while a call of f is still running" % (
+                    fn.qname.rsplit("::", 1)[-1], tgt))
+    else:
+        rep.ok("C11.R3", "pika::thread_pool_bulk_detail::operation_state", "tasks_remaining / num_worker_threads are fixed once the operation state is built (only finish() decrements)")
     recs = [r for r in D.records.values() if r["qname"] == "pika::thread_pool_bulk_detail::operation_state" and not r.get("dependent")]
     if not recs:
         raise AnalysisBroken("operation_state record not found")
